@@ -228,6 +228,8 @@ pub fn run(ctx: &Ctx) -> (Spec, Report) {
         let got = typeshare_names(rule, ids, variant, rep);
         for (id, g) in ids.iter().zip(got.iter()) {
             let pos = if variant { "variant" } else { "field" };
+            // an identifier written raw (`r#type`) is the identifier without the prefix, for serde and for the rule
+            let id = &id.strip_prefix("r#").unwrap_or(id).to_string();
             let cls = class_of(id, variant);
             let want = serde_expect(rule, id, variant);
             rep.eval(1);
@@ -276,6 +278,22 @@ pub fn run(ctx: &Ctx) -> (Spec, Report) {
         rep
     });
     rep.count("identifiers_exhaustive", ids.len() as u64);
+    // the same rule applies to identifiers written raw: every keyword that can be a raw identifier, and ordinary ones
+    {
+        let mut raw: Vec<String> = ["fn", "in", "as", "if", "do", "mod", "ref", "use", "let", "mut", "for", "type", "loop", "move", "else", "enum", "impl", "match", "const", "where", "while", "break", "trait", "struct", "static", "return", "unsafe", "extern", "continue", "async", "await", "dyn", "pub", "try", "yield", "box", "final", "macro", "virtual", "abstract", "become", "override", "priv", "typeof", "unsized", "true", "false"]
+            .iter()
+            .map(|k| format!("r#{k}"))
+            .collect();
+        raw.extend(ids.iter().filter(|i| i.is_ascii() && i.chars().count() <= 3 && i.chars().any(|c| c != '_')).map(|i| format!("r#{i}")));
+        rep.count("identifiers_written_raw", raw.len() as u64);
+        let raw_ref = &raw;
+        let r = par_shards(ctx.threads, rules.len() * 2, |u| {
+            let mut rep = Report::new();
+            compare(rules_ref[u / 2], u % 2 == 1, raw_ref, &mut rep, "raw-identifier");
+            rep
+        });
+        rep.merge(r);
+    }
     // dictionary + random longer identifiers (thorough; a small slice in quick)
     let (mut dict_f, mut dict_v) = dictionary(ctx.tier.pick(600, 6000));
     let mut rng = Rng::derive(ctx.seed, "C16-long", 0);
@@ -324,7 +342,7 @@ pub fn run(ctx: &Ctx) -> (Spec, Report) {
     let spec = Spec {
         level: "exploration",
         rule: format!(
-            "every valid Rust identifier of length <= {max_len} over the class representatives {{a, B, 7, _, é, É}} ({} identifiers) x 8 rename_all rules + an unknown rule x {{field, variant}} position, exhaustively; plus registry-harvested real-world identifiers and seeded random identifiers of length 8-24; typeshare's name is read back from generated TypeScript (parser::parse -> TypeScript backend -> TS parser), the oracle is serde_derive 1.0.214's case.rs; distinct = (position, rule, identifier class, length) with serde name != identifier",
+            "every valid Rust identifier of length <= {max_len} over the class representatives {{a, B, 7, _, é, É}} ({} identifiers) x 8 rename_all rules + an unknown rule x {{field, variant}} position, exhaustively; plus every keyword and every identifier of length <= 3 written as a raw identifier (`r#type`), registry-harvested real-world identifiers and seeded random identifiers of length 8-24; typeshare's name is read back from generated TypeScript (parser::parse -> TypeScript backend -> TS parser), the oracle is serde_derive 1.0.214's case.rs; distinct = (position, rule, identifier class, length) with serde name != identifier",
             ids.len()
         ),
         assumptions: vec![
